@@ -139,7 +139,8 @@ class FakeSnowflakeConnection:
         **kwargs: dict[str, Any],
     ) -> Iterable[FakeSnowflakeCursor]:
         cursors = [
-            self.cursor(cursor_class).execute(e.sql(dialect="snowflake"))
+            # a comment next to a statement is not part of it (nop_regexes match the statement's own text)
+            self.cursor(cursor_class).execute(e.sql(dialect="snowflake", comments=False))
             for e in sqlglot.parse(sql_text, read="snowflake")
             if e and not isinstance(e, exp.Semicolon)  # ignore comments
         ]
